@@ -2261,7 +2261,7 @@ class Power(Array):
             return
         func = self.func
         newpower = multiply(self.power, n)
-        if iszero(self.power % astype(2, self.power.dtype)) and not iszero(newpower % astype(2, newpower.dtype)):
+        if _iseven(self.power) and not _iseven(newpower):
             func = abs(func)
         return Power(func, newpower)
 
@@ -5999,6 +5999,14 @@ def constant(v):
 
 def iszero(arg):
     return isinstance(arg.simplified, Zeros)
+
+
+def _iseven(arg):
+    'test if `arg` is a constant all of whose values are even numbers'
+    const, where = unalign(arg.simplified)
+    while isinstance(const, Cast):
+        const = const.arg
+    return isinstance(const, Constant) and not (const.value % 2).any()
 
 
 def isunit(arg):
